@@ -82,19 +82,6 @@ class ErrPages:
         _http1.make_error_response = self.orig
 
 
-class StreamingWorld(World):
-    """server.py's server_event executes each command as the layer's generator yields it; if the layer raises
-    ("mitmproxy has crashed!") the commands yielded before are already done.  World._handle collects the whole list
-    first and would drop them, so the exception path is overridden here (same behaviour when nothing raises)."""
-    def _handle(self, event):
-        try:
-            for c in self.layer.handle_event(event):
-                self._command(c)
-        except Exception as e:
-            import traceback
-            self.errors.append((type(e).__name__, str(e), traceback.format_exc()))
-
-
 def may_have_body(flow, msg):
     if msg is flow.request:
         return True
@@ -167,7 +154,7 @@ def run(case, whole=False):
             if case["mode"] == "reverse":
                 ctx.client.proxy_mode = ProxyMode.parse("reverse:http://%s:%d" % ORIGIN)
         lay = http_layer.HttpLayer(ctx, mode)
-        w = StreamingWorld(lay, ctx, on_hook=on_hook)
+        w = World(lay, ctx, on_hook=on_hook)
         w.start()
 
         answered = {}          # label -> responses delivered (started) on that connection
@@ -452,6 +439,23 @@ def gen_schedule(rng, case, kind=None):
         k = rng.randint(0, min(6, max(0, len(b) - 1)))
         return sorted(rng.sample(range(1, len(b)), k)) if k else []
     c["ccuts"] = cuts(client)
-    c["scuts"] = [cuts(unhx(r["data_hex"])) for r in case["resps"]]
     c["sched"] = [rng.randint(0, 1) for _ in range(rng.pick([0, 8, 40]))]
+    # The origin's FIN is part of the schedule only where the protocol makes it part of the message (read-until-close
+    # body, incomplete message).  A server that silently drops a keep-alive connection races with the next request
+    # whatever the segmentation — that race is the environment's, not a property of how streams are split.
+    rs = []
+    cm = [m["method"] for m in R.parse_requests(client).messages]
+    for k, r in enumerate(case["resps"]):
+        p = R.parse_responses(unhx(r["data_hex"]), [cm[k]] if k < len(cm) else None, eof=True)
+        finals = [m for m in p.messages if not m["interim"]]
+        complete = bool(finals) and finals[0]["framing"] != "eof"
+        data = unhx(r["data_hex"])
+        if complete:
+            # causality: nothing follows the response until the next request has been sent
+            data = data[:finals[0]["end"]]
+        # read-until-close body / truncated message
+        open_ended = (finals[0]["framing"] == "eof") if finals else (p.stop is not None and p.stop[0] == "incomplete")
+        rs.append({"data_hex": hx(data), "close": bool(r.get("close")) and open_ended})
+    c["resps"] = rs
+    c["scuts"] = [cuts(unhx(r["data_hex"])) for r in rs]
     return c
